@@ -2,6 +2,7 @@ package server
 
 import (
 	"encoding/json"
+	"errors"
 	"net/http"
 	"strconv"
 	"time"
@@ -10,6 +11,8 @@ import (
 	"github.com/pyroscope-io/pyroscope/pkg/storage/tree"
 	"github.com/pyroscope-io/pyroscope/pkg/util/attime"
 )
+
+var errInvalidTimeRange = errors.New("until is before from")
 
 type samplesEntry struct {
 	Ts      time.Time `json:"ts"`
@@ -20,6 +23,10 @@ func (ctrl *Controller) renderHandler(w http.ResponseWriter, r *http.Request) {
 	q := r.URL.Query()
 	startTime := attime.Parse(q.Get("from"))
 	endTime := attime.Parse(q.Get("until"))
+	if endTime.Before(startTime) {
+		returnError(w, 422, errInvalidTimeRange, "error happened while parsing request parameters")
+		return
+	}
 	var err error
 	storageKey, err := storage.ParseKey(q.Get("name"))
 	if err != nil {
